@@ -177,6 +177,7 @@ def run(ctx):
                 'assignment, ++/--, if/else, for/while/do, switch, early return, calls, globals, pointer alias writes, '
                 'arrays, structs) x N input vectors; non-trivial = at least one cppcheck known/impossible fact on a '
                 'probed expression was evaluated at run time in a sanitizer-clean execution; distinct by program text')
+    ctx.cov['generator_exclusions'] = progen.EXCLUSIONS
     ctx.assumptions += ['gcc x86-64 execution == --platform=unix64', 'ASan+UBSan-clean execution == UB-free execution']
     n = ctx.n(240, 12000)
     nvec = 16 if ctx.quick() else 48
